@@ -176,3 +176,31 @@ func RandomGraph(t *rapid.T, maxSvc, maxTag, maxDec, maxParam int, scopes bool) 
 	}
 	return g
 }
+
+// EdgeGraph builds a structure from typed edges between services. Edge kinds:
+// 0 constructor argument, 1 field, 2 call argument, 3 through a tag (target carries
+// a tag the source requests with !tagged), 4 through a decorator (source carries a
+// tag whose decorator depends on the target).
+func EdgeGraph(n int, edges [][3]int, scopes []string) GraphSpec {
+	g := GraphSpec{NSvc: n, Scopes: scopes}
+	for _, e := range edges {
+		i, j, k := e[0], e[1], e[2]
+		switch k {
+		case 0, 1, 2:
+			g.SvcRefs = append(g.SvcRefs, [3]int{i, j, k})
+		case 3:
+			t := g.NTag
+			g.NTag++
+			g.SvcTags = append(g.SvcTags, [2]int{j, t})
+			g.SvcTagged = append(g.SvcTagged, [3]int{i, t, 0})
+		case 4:
+			t := g.NTag
+			g.NTag++
+			g.SvcTags = append(g.SvcTags, [2]int{i, t})
+			d := len(g.DecTag)
+			g.DecTag = append(g.DecTag, t)
+			g.DecRefs = append(g.DecRefs, [2]int{d, j})
+		}
+	}
+	return g
+}
